@@ -270,7 +270,8 @@ def _profiles(IM, origin, rmax, order, odd, weights, verbose):
     # image
     global _prm, _weights, _dst, _ibs, _trf, _tri_prm, _tri
 
-    old_valid = None if _dst is None else _dst.valid
+    # (an object whose first image was refused has no 'valid' yet)
+    old_valid = getattr(_dst, 'valid', None)
 
     if verbose:
         print('Extracting radial profiles...')
